@@ -529,6 +529,21 @@ func mapperSkeleton(p *packages.Package, fd *ast.FuncDecl) []string {
 	// what the mapper takes apart and what it can say, wherever it is written: helper functions of the package that the mapper
 	// calls are looked into, the order of the statements and the spelling of the conditions play no part
 	set := map[string]bool{}
+	// booleans defined by a comparison (x := a != nil), so that a condition on x reads as the comparison
+	boolDefs := map[types.Object]ast.Expr{}
+	deepInspect(p, fd, 3, func(n ast.Node) bool {
+		if as, ok := n.(*ast.AssignStmt); ok && as.Tok == token.DEFINE && len(as.Lhs) == 1 && len(as.Rhs) == 1 {
+			if id, ok := as.Lhs[0].(*ast.Ident); ok {
+				if be, ok := ast.Unparen(as.Rhs[0]).(*ast.BinaryExpr); ok {
+					switch be.Op {
+					case token.EQL, token.NEQ, token.LSS, token.GTR, token.LEQ, token.GEQ, token.LAND, token.LOR:
+						boolDefs[info.Defs[id]] = be
+					}
+				}
+			}
+		}
+		return true
+	})
 	deepInspect(p, fd, 3, func(n ast.Node) bool {
 		switch s := n.(type) {
 		case *ast.CallExpr:
@@ -537,8 +552,9 @@ func mapperSkeleton(p *packages.Package, fd *ast.FuncDecl) []string {
 					set[fmt.Sprintf("get%d", k)] = true
 				}
 			}
-			if fo, ok := objOf(info, s.Fun).(*types.Func); ok && fo.Pkg() != nil && (fo.Pkg().Path() == "fmt" || fo.Pkg().Path() == "errors") && len(s.Args) > 0 {
-				if f, ok := constStr(info, s.Args[0]); ok {
+			// the text of a message: a constant handed to fmt / errors, or to a function of the package that formats it
+			if fo, ok := objOf(info, s.Fun).(*types.Func); ok && fo.Pkg() != nil && (fo.Pkg().Path() == "fmt" || fo.Pkg().Path() == "errors" || fo.Pkg() == p.Types) && len(s.Args) > 0 {
+				if f, ok := constStr(info, s.Args[0]); ok && (fo.Pkg() != p.Types || strings.ContainsAny(f, " %")) {
 					set["msg:"+f] = true
 				}
 			}
@@ -578,12 +594,17 @@ func mapperSkeleton(p *packages.Package, fd *ast.FuncDecl) []string {
 				}
 				return true
 			}
-			ast.Inspect(s.Body, look)
+			deepInspectNode(p, s.Body, 2, look)
 			if s.Else != nil {
-				ast.Inspect(s.Else, look)
+				deepInspectNode(p, s.Else, 2, look)
 			}
 			if validating {
-				for _, a := range condAtoms(info, s.Cond, abstractType) {
+				for _, a := range condAtoms(info, s.Cond, abstractType, boolDefs) {
+					// presence tests (a comma-ok flag, or its equivalent as a type switch or an inverted guard) are already in
+					// the skeleton as assertions; conditions this abstraction cannot read are left out on both sides
+					if a == "flag" || a == "opaque" {
+						continue
+					}
 					set["tests:"+a] = true
 				}
 			}
@@ -813,7 +834,7 @@ func isErrField(info *types.Info, sel *ast.SelectorExpr) bool {
 // condAtoms splits a condition at && and ||, strips negations, and abstracts every atom: a boolean variable by where it
 // was defined (comma-ok of a map index, of a type assertion, or a call), a comparison by its operator class and the kinds of
 // its operands (len(...), constant, nil, a value of some type). An atom that is none of these is "opaque".
-func condAtoms(info *types.Info, e ast.Expr, abstractType func(types.Type) string) []string {
+func condAtoms(info *types.Info, e ast.Expr, abstractType func(types.Type) string, defs map[types.Object]ast.Expr) []string {
 	var out []string
 	var operand func(e ast.Expr) string
 	operand = func(e ast.Expr) string {
@@ -845,6 +866,7 @@ func condAtoms(info *types.Info, e ast.Expr, abstractType func(types.Type) strin
 		}
 		return "?"
 	}
+	depthGuard := 0
 	var walk func(e ast.Expr)
 	walk = func(e ast.Expr) {
 		e = ast.Unparen(e)
@@ -878,6 +900,13 @@ func condAtoms(info *types.Info, e ast.Expr, abstractType func(types.Type) strin
 		case *ast.Ident:
 			if o, ok := info.Uses[x].(*types.Var); ok {
 				if b, isB := o.Type().Underlying().(*types.Basic); isB && b.Kind() == types.Bool {
+					// a boolean that names a comparison stands for it
+					if d, ok := defs[o]; ok && depthGuard < 4 {
+						depthGuard++
+						walk(d)
+						depthGuard--
+						return
+					}
 					out = append(out, "flag")
 					return
 				}
